@@ -682,6 +682,10 @@ func runC16(cfg *runCfg) error {
 			for _, bn := range []string{"a", "b", "c", "zz"} {
 				if g.r.chance(50) {
 					ns := append([]*tnode{{kind: "lit", s: fmt.Sprintf("O%d%s", lvl, bn)}}, g.flat(false, false)...)
+					if g.r.chance(15) {
+						ns = []*tnode{} // an override that blanks the block out
+						feats["inheritance: empty override"]++
+					}
 					overrides[lvl][bn] = ns
 					b.WriteString("\n{{#block \"" + bn + "\"}}")
 					printNodes(ns, &b)
